@@ -674,4 +674,94 @@ theorem chainHead_length (now : Int) (cs : List (Int × Int × Req)) : (chainHea
     unfold chainHead
     split <;> simp [ih]
 
+/-! ## the exact region of schedules on which spacing fails -/
+
+theorem run_append (c : Cfg) (a b : List Nat) : c.run (a ++ b) = (c.run a).run b := by
+  induction a generalizing c with
+  | nil => rfl
+  | cons i r ih => simp [Cfg.run, ih]
+
+/-- the schedule `go/internal/sched` really executes: the given entries, then five round-robin rounds -/
+def fullSched (c : Cfg) (s : List Nat) : List Nat :=
+  s ++ List.range c.ths.length ++ List.range c.ths.length ++ List.range c.ths.length ++ List.range c.ths.length ++
+    List.range c.ths.length
+
+theorem runSched_eq_run (c : Cfg) (s : List Nat) : c.runSched s = c.run (fullSched c s) := by
+  unfold Cfg.runSched Cfg.round fullSched
+  simp only [run_append, run_length]
+
+/-- a step either leaves the admission log alone or appends one admission -/
+theorem sched_log_cases (c : Cfg) (i : Nat) : (c.sched i).log = c.log ∨ ∃ e, (c.sched i).log = c.log ++ [e] := by
+  unfold Cfg.sched
+  split
+  · left; rfl
+  · split
+    · left; rfl
+    · simp only
+      split
+      · rename_i e _; right; exact ⟨e, rfl⟩
+      · left; rfl
+
+/-- step `i` admits a caller with a pass time less than its interval after the latest admitted pass time -/
+def admitBad (base : Int) (c : Cfg) (i : Nat) : Bool :=
+  match (c.sched i).log.drop c.log.length with
+  | [(p, iv)] => decide (p < latest base c.log + iv)
+  | _ => false
+
+/-- **the collision region**: somewhere along the schedule an admission collides with the latest admitted pass time -/
+def collides (base : Int) : Cfg → List Nat → Bool
+  | _, [] => false
+  | c, i :: r => admitBad base c i || collides base (c.sched i) r
+
+theorem spaced_sched_iff (base : Int) (c : Cfg) (i : Nat) (h : Spaced base c.log) :
+    Spaced base (c.sched i).log ↔ admitBad base c i = false := by
+  unfold admitBad
+  rcases sched_log_cases c i with he | ⟨⟨p, iv⟩, he⟩
+  · rw [he]; simp [h]
+  · rw [he, spaced_append_one]
+    simp only [List.drop_left', h, true_and]
+    simp
+
+theorem not_spaced_sched (base : Int) (c : Cfg) (i : Nat) (h : ¬ Spaced base c.log) : ¬ Spaced base (c.sched i).log := by
+  rcases sched_log_cases c i with he | ⟨⟨p, iv⟩, he⟩
+  · rw [he]; exact h
+  · rw [he, spaced_append_one]; exact fun h' => h h'.1
+
+theorem not_spaced_run (base : Int) (c : Cfg) (s : List Nat) (h : ¬ Spaced base c.log) : ¬ Spaced base (c.run s).log := by
+  induction s generalizing c with
+  | nil => exact h
+  | cons i r ih => exact ih _ (not_spaced_sched base c i h)
+
+theorem spaced_run_iff (base : Int) (c : Cfg) (s : List Nat) (h : Spaced base c.log) :
+    Spaced base (c.run s).log ↔ collides base c s = false := by
+  induction s generalizing c with
+  | nil => simp [Cfg.run, collides, h]
+  | cons i r ih =>
+    simp only [Cfg.run, collides, Bool.or_eq_false_iff]
+    by_cases hb : admitBad base c i = false
+    · have h1 := (spaced_sched_iff base c i h).mpr hb
+      rw [ih _ h1]; simp [hb]
+    · have h1 : ¬ Spaced base (c.sched i).log := fun hs => hb ((spaced_sched_iff base c i h).mp hs)
+      constructor
+      · intro hs; exact absurd hs (not_spaced_run base _ r h1)
+      · intro hs; exact absurd hs.1 hb
+
+theorem spaced_runSched_iff (base : Int) (c : Cfg) (s : List Nat) (h : Spaced base c.log) :
+    Spaced base (c.runSched s).log ↔ collides base c (fullSched c s) = false := by
+  rw [runSched_eq_run]
+  exact spaced_run_iff base c _ h
+
+theorem spaced_start (maxQ last : Int) (ws : List (Int × Req)) : Spaced last (Cfg.start maxQ last ws).log := by
+  simp [Cfg.start, Spaced]
+
+section
+attribute [local irreducible] Spaced
+
+theorem collides_false_of (base : Int) (c : Cfg) (s : List Nat) (h0 : Spaced base c.log) (P : Prop)
+    (h : Spaced base (c.runSched s).log ∧ P) : collides base c (fullSched c s) = false := by
+  obtain ⟨h1, _⟩ := h
+  exact (spaced_runSched_iff base c s h0).mp h1
+
+end
+
 end Sentinel.C10
